@@ -273,3 +273,30 @@ func report(r *Result, tier string, seed int, wall float64, verifDir string, fs 
 	fmt.Printf("%s %s: %d obligations, %d discharged, %d known findings, %d violations (%.1fs)\n", r.Property, tier, len(r.Obls), discharged, len(knownMatched), violations, wall)
 	return exit
 }
+
+// discard removes the obligations of a rule whose key contains sub: a property that shares a rule with
+// others keeps only the clauses that are necessary conditions of its own statement.
+func (r *Result) discard(rule, sub string) {
+	var keep []Obligation
+	for _, o := range r.Obls {
+		if o.Rule == rule && strings.Contains(o.Key, sub) {
+			r.Instances[rule]--
+			continue
+		}
+		keep = append(keep, o)
+	}
+	r.Obls = keep
+}
+
+// takeFrom copies from sub the obligations of a rule whose key contains keySub.
+func (r *Result) takeFrom(sub *Result, rule, keySub string) int {
+	n := 0
+	for _, o := range sub.Obls {
+		if o.Rule == rule && strings.Contains(o.Key, keySub) {
+			r.Obls = append(r.Obls, o)
+			r.Instances[rule]++
+			n++
+		}
+	}
+	return n
+}
